@@ -3,6 +3,7 @@ CONSTANTS
   MaxLen = 1000
   BlankStops = FALSE
   EndEmptyRaises = FALSE
+  GluedKeepsWater = FALSE
   DropWaterChoices = {FALSE, TRUE}
   Emit = FALSE
 INVARIANT Report
